@@ -9,6 +9,7 @@
 #include <BayesFilters/LTIMeasurementModel.h>
 #include <BayesFilters/LinearModel.h>
 #include <BayesFilters/SimulatedStateModel.h>
+#include <BayesFilters/AdditiveStateModel.h>
 #include <BayesFilters/SimulatedLinearSensor.h>
 #include <BayesFilters/InitSurveillanceAreaGrid.h>
 #include <BayesFilters/ExogenousModel.h>
@@ -62,6 +63,23 @@ struct HAff : public StateModel {
     HAff(const MatrixXd& A, const VectorXd& b, std::size_t lin, std::size_t circ, bool quat = false) : A_(A), b_(b), lin_(lin), circ_(circ), quat_(quat) {}
     void propagate(const Ref<const MatrixXd>& cur, Ref<MatrixXd> prop) override { prop = (A_ * cur).colwise() + b_; }
     void motion(const Ref<const MatrixXd>& cur, Ref<MatrixXd> mot) override { mot = (A_ * cur).colwise() + b_; }
+    bool setProperty(const std::string&) override { return false; }
+    VectorDescription descr() const { return VectorDescription(lin_, circ_, 0, quat_ ? VectorDescription::CircularType::Quaternion : VectorDescription::CircularType::Euler); }
+    VectorDescription getInputDescription() override { return descr(); }
+    VectorDescription getStateDescription() override { return descr(); }
+    MatrixXd A_; VectorXd b_; std::size_t lin_, circ_; bool quat_;
+};
+
+// The same motion, offered by a class that derives from AdditiveStateModel and overrides the virtual motion():
+// whoever holds it as a StateModel must go through motion().  propagate() and getNoiseSample() are deliberately NOT
+// a decomposition of motion() (a user model may clamp, saturate, wrap ... inside motion()), so a caller that
+// re-assembles "propagate + noise sample" instead of calling motion() is told apart.
+struct HAffAdd : public AdditiveStateModel {
+    HAffAdd(const MatrixXd& A, const VectorXd& b, std::size_t lin, std::size_t circ, bool quat = false) : A_(A), b_(b), lin_(lin), circ_(circ), quat_(quat) {}
+    void propagate(const Ref<const MatrixXd>& cur, Ref<MatrixXd> prop) override { prop = cur.array() + 1.0; }
+    void motion(const Ref<const MatrixXd>& cur, Ref<MatrixXd> mot) override { mot = (A_ * cur).colwise() + b_; }
+    MatrixXd getNoiseSample(const std::size_t num) override { return MatrixXd::Constant(A_.rows(), num, 0.5); }
+    MatrixXd getNoiseCovarianceMatrix() override { return MatrixXd::Identity(A_.rows(), A_.rows()); }
     bool setProperty(const std::string&) override { return false; }
     VectorDescription descr() const { return VectorDescription(lin_, circ_, 0, quat_ ? VectorDescription::CircularType::Quaternion : VectorDescription::CircularType::Euler); }
     VectorDescription getInputDescription() override { return descr(); }
@@ -371,7 +389,9 @@ static Traj readTraj(Toks& t) {
     if (kind == "aff") {
         r.n = t.nat(); r.L = t.nat(); r.lin = t.nat(); r.circ = t.nat(); bool quat = t.flag();
         MatrixXd A = t.mat(r.n, r.n); VectorXd b = t.vec(r.n), x0 = t.vec(r.n);
-        r.sim.reset(new SimulatedStateModel(std::unique_ptr<StateModel>(new HAff(A, b, r.lin, r.circ, quat)), x0, (unsigned int)r.L));
+        // trajectories of even length are served by the AdditiveStateModel-derived twin of the same motion
+        if (r.L % 2 == 0) r.sim.reset(new SimulatedStateModel(std::unique_ptr<StateModel>(new HAffAdd(A, b, r.lin, r.circ, quat)), x0, (unsigned int)r.L));
+        else r.sim.reset(new SimulatedStateModel(std::unique_ptr<StateModel>(new HAff(A, b, r.lin, r.circ, quat)), x0, (unsigned int)r.L));
     } else if (kind == "wna") {
         r.wna = true; r.d = t.nat(); r.T = t.dbl(); r.q = t.dbl(); r.seed = (unsigned int)t.nat(); r.L = t.nat();
         std::unique_ptr<WNA> m(new WNA(dimOf(r.d), r.T, r.q, r.seed));
